@@ -25,8 +25,15 @@ pub fn image(ft: FatType) -> Vec<u8> {
         b.set_fsinfo(keep.len() as u32, 3);
         return b.finish();
     }
-    let spec = vol::VolSpec { name: "f".into(), fat: ft, bps: 512, spc: 1, fats: 2, root_entries: 512, clusters: Some(200), free: None, tail: 0 };
-    let (img, _) = vol::build(&spec).expect("c19 image");
+    // clusters of four sectors on a used medium (every free cluster holds what looks like live entries), so that a build
+    // which clears less of a new directory cluster than the others shows up in the image hash
+    let spec = vol::VolSpec { name: "f".into(), fat: ft, bps: 512, spc: 4, fats: 2, root_entries: 512, clusters: Some(200), free: None, tail: 0 };
+    let (mut img, _) = vol::build(&spec).expect("c19 image");
+    let g = vol::geo_of(&img);
+    let stale = harness::builder::sfn_slot(b"STALE   BIN", 0x20, 0, harness::builder::Times::default(), 0, 7);
+    for (i, b) in img[g.data_off() as usize..g.data_end() as usize].iter_mut().enumerate() {
+        *b = stale[i % 32];
+    }
     img
 }
 
